@@ -162,6 +162,12 @@ def run(res, tier, seed, shard, nshards):
         for (L, api, ks, trace) in mine:
             one(res, W, rng, conns, L, api, ks, trace, null)
         W.enableTrace(False)
+        # one ABNF object written several times (re-sent as is, and with fin/opcode/data updated per fragment):
+        # every write is one well-formed frame of its own with a fresh key
+        for ks in ("default", "bytes", "str"):
+            for i in range(12 if tier == "quick" else 120):
+                if (i + shard) % nshards == 0:
+                    reuse_case(res, W, rng, ks)
 
     H.in_sim(scen, watchdog=3000)
     W.enableTrace(False)
@@ -311,3 +317,52 @@ def one(res, W, rng, conns, L, api, ks, trace, null):
 def R_h(b):
     from ..core import h64
     return h64(bytes(b))
+
+
+def reuse_case(res, W, rng, ks):
+    src = KeySrc(ks, rng)
+    w, conn, peer = H.connected_ws(ws_kwargs={"get_mask_key": src.fn()})
+    n0 = rng.choice([0, 1, 5, 125, 126, 300])
+    frame = W.ABNF.create_frame(rng.randbytes(n0), W.ABNF.OPCODE_BINARY, 0)
+    steps = []
+    for k in range(rng.randrange(2, 5)):
+        how = rng.choice(["same", "new-data", "shorter", "longer", "last"])
+        if how == "new-data":
+            frame.data = rng.randbytes(len(frame.data))
+        elif how == "shorter":
+            frame.data = frame.data[: len(frame.data) // 2]
+        elif how == "longer":
+            frame.data = frame.data + rng.randbytes(rng.choice([1, 130]))
+        elif how == "last":
+            frame.fin = 1
+        if k:
+            frame.opcode = W.ABNF.OPCODE_CONT
+        before = len(peer.client_stream)
+        del src.draws[:]
+        u0 = len(shim.urandom_log)
+        payload = bytes(frame.data)
+        try:
+            ret = w.send_frame(frame)
+        except Exception as e:  # noqa
+            res.violation("send-raised", f"reused frame object, step {k} ({how}): {type(e).__name__}: {e}", {"gen": "reuse", "keysrc": ks}, api="send_frame-reuse", exc_type=type(e).__name__)
+            return
+        written = bytes(peer.client_stream[before:])
+        case = {"gen": "reuse", "keysrc": ks, "step": k, "how": how, "payload": payload}
+        res.case(("reuse", ks, k, how, R_h(payload)))
+        res.count("frame_object_reuse_writes")
+        try:
+            f = R.decode_one(written)
+        except R.Incomplete:
+            res.violation("frame-incomplete", f"reused frame object step {k} ({how}): written bytes are not one complete frame", case, api="send_frame-reuse", keysrc=ks)
+            return
+        draws = [(n_, v) for (n_, v, fn, fun) in shim.urandom_log[u0:] if fn == "_abnf.py"] if ks == "default" else list(src.draws)
+        vb = None
+        if len(draws) == 1:
+            vb = draws[0][1].encode("ascii") if isinstance(draws[0][1], str) else draws[0][1]
+        if f.end != len(written) or f.payload != payload or f.fin != frame.fin or f.opcode != frame.opcode or not f.masked or not f.minimal:
+            res.violation("reused-frame-damaged", f"step {k} ({how}): wire frame len={f.length} fin={f.fin} op={f.opcode} end={f.end}/{len(written)} payload ok={f.payload == payload}",
+                          case, api="send_frame-reuse", keysrc=ks)
+        elif len(draws) != 1 or vb != f.key:
+            res.violation("key-draws", f"reused frame object step {k} ({how}): {len(draws)} draws from the key source; key on the wire {f.key.hex()}", case, api="send_frame-reuse", keysrc=ks)
+        elif ret != len(written):
+            res.violation("return-value", f"reused frame object step {k}: returned {ret}, frame has {len(written)} bytes", case, api="send_frame-reuse", keysrc=ks)
